@@ -19,6 +19,12 @@
 #include <amgcl/solver/cg.hpp>
 #include <amgcl/solver/bicgstab.hpp>
 #include <amgcl/solver/gmres.hpp>
+#include <amgcl/preconditioner/dummy.hpp>
+#include <amgcl/solver/richardson.hpp>
+#include <amgcl/solver/bicgstabl.hpp>
+#include <amgcl/solver/idrs.hpp>
+#include <amgcl/solver/fgmres.hpp>
+#include <amgcl/solver/lgmres.hpp>
 #include <amgcl/solver/preonly.hpp>
 #include <amgcl/solver/skyline_lu.hpp>
 #include <amgcl/adapter/zero_copy.hpp>
@@ -54,6 +60,19 @@ static void zero_copy_case(const Input &in) { hx::run_case("zero_copy_amg/"+in.n
     try { typedef amgcl::amg<BE,co::smoothed_aggregation,rx::spai0> AMG; AMG::params prm; prm.coarse_enough=1; AMG amg(*Z,prm); Vec f=hx::sym_vector("f",n); NV F=hx::to_numa(f), X(n,false); for (int i=0;i<n;++i) X[i]=scalar(0); amg.apply(F,X); } catch (const amgcl::error::empty_level&) {} catch (const std::runtime_error&) {}
     Z.reset(); bool intact=A.ptr==p0 && A.col==c0; for (size_t k=0;k<v0.size();++k) intact=intact&&hx::same_handle(A.val[k],v0[k]); hx::require("zero-copy matrix: user arrays intact (never freed, never written) after the hierarchy and the adapter are destroyed", intact); hx::require("no uninitialised read", poison_events()==ev0); }); }
 
+// AUXILIARY, not a solver verdict: deep runs of the Krylov solvers with tiny restart / augmentation / shadow-space parameters, on concrete
+// numbers, executed only in the concrete (validation) pass of both builds under AddressSanitizer.  They wrap every internal ring buffer and
+// restart several times -- iteration depths the symbolic engine cannot reach (3 GB per case at 3 iterations); the sanitizer is the only oracle.
+template<class S, class SetP> static void deep_run_case(const std::string &nm, SetP setp, int repeats) { hx::run_case("deep-run(concrete)/"+nm, [&]() {
+#ifndef HX_DBL
+    hx::count("deep concrete runs are executed by the double build in the validation pass only"); return;
+#endif
+    if (!hx::concrete()) { hx::count("deep concrete runs are executed in the validation pass only"); return; }
+    const int n=9; std::vector<ptrdiff_t> ptr{0}, col; Vec val; for (int i=0;i<n;++i) { if (i>0) { col.push_back(i-1); val.push_back(scalar(-1)); } col.push_back(i); val.push_back(scalar(2.5+0.125*i)); if (i+1<n) { col.push_back(i+1); val.push_back(scalar(-1.25)); } ptr.push_back(col.size()); }
+    typedef amgcl::make_solver<amgcl::preconditioner::dummy<BE>,S> MS; typename MS::params prm; prm.solver.maxiter=12; prm.solver.tol=scalar(1e-300); setp(prm.solver); MS s(std::tie(n,ptr,col,val),prm);
+    bool ok=true; for (int r=0;r<repeats;++r) { NV F(n,false), X(n,false); for (int i=0;i<n;++i) { F[i]=scalar(1.0+0.5*((i*7+r)%5)); X[i]=scalar(0); } try { auto res=s(F,X); ok=ok&&std::get<0>(res)<=12+4; } catch (const std::runtime_error&) {} }
+    hx::require("deep concrete run finishes inside its iteration budget without a sanitizer report", ok); }); }
+
 int main(int argc, char **argv) {
     hx::parse_args(argc,argv); bool T=hx::thorough();
     hx::encodes("amg<B,C,R> construction + make_solver solve for C in {aggregation, smoothed_aggregation, smoothed_aggr_emin, ruge_stuben} x R in {spai0, damped_jacobi, gauss_seidel, ilu0, ilut, chebyshev}, solvers cg/bicgstab/gmres, as_preconditioner, skyline_lu, adapter::zero_copy -- on the degenerate inputs the property lists");
@@ -74,5 +93,9 @@ int main(int argc, char **argv) {
             twice_case<amgcl::make_solver<amgcl::amg<BE,co::ruge_stuben,rx::spai0>,sv::preonly<BE>>>("rs+spai0/ml1",I,ce(1,1)); twice_case<amgcl::make_solver<amgcl::amg<BE,co::smoothed_aggregation,rx::spai0>,sv::preonly<BE>>>("sa+spai0/ce3000",I,ce(3000));
         }
         lu_case(I); zero_copy_case(I); }
+    deep_run_case<sv::lgmres<BE>>("lgmres/M1K1",[](auto &p){ p.M=1; p.K=1; },1); deep_run_case<sv::lgmres<BE>>("lgmres/M2K2-noreset-x8",[](auto &p){ p.M=2; p.K=2; p.always_reset=false; p.maxiter=3; },8);
+    deep_run_case<sv::gmres<BE>>("gmres/M1",[](auto &p){ p.M=1; },2); deep_run_case<sv::gmres<BE>>("gmres/M3",[](auto &p){ p.M=3; },2); deep_run_case<sv::fgmres<BE>>("fgmres/M2",[](auto &p){ p.M=2; },2);
+    deep_run_case<sv::idrs<BE>>("idrs/s1",[](auto &p){ p.s=1; },2); deep_run_case<sv::idrs<BE>>("idrs/s3",[](auto &p){ p.s=3; },2); deep_run_case<sv::bicgstabl<BE>>("bicgstabl/L1",[](auto &p){ p.L=1; },2); deep_run_case<sv::bicgstabl<BE>>("bicgstabl/L3",[](auto &p){ p.L=3; },2);
+    deep_run_case<sv::cg<BE>>("cg",[](auto &){},2); deep_run_case<sv::bicgstab<BE>>("bicgstab",[](auto &){},2); deep_run_case<sv::richardson<BE>>("richardson",[](auto &){},2);
     return hx::finish();
 }
